@@ -216,6 +216,7 @@ func (r *runner) process(d *Desc) {
 
 	// ---- rpc strings: one per method, equal on the client and the description side
 	r.rpcOracle(d, sks)
+	r.rpcNameOracle(d, mainFiles, sks)
 	r.descOracle(d, sks)
 
 	// ---- type-check against the runtime in /repo
@@ -293,9 +294,11 @@ func foreignQualifier(files []*ast.File) string {
 	return ""
 }
 
-func (r *runner) rpcOracle(d *Desc, sks []*skeleton) {
-	cli := map[string][]string{}  // iface method name (per Description receiver is not known: key by rpc) …
-	desc := map[string][]string{} // method -> rpc
+// rpcStrings: the rpc strings of the generated files, keyed by "<service Go name>.<method Go name>":
+// cli = what the client stub passes to Invoke / NewStream, desc = what the Description's Method returns.
+func rpcStrings(sks []*skeleton) (cli, desc map[string][]string) {
+	cli = map[string][]string{}
+	desc = map[string][]string{}
 	for _, sk := range sks {
 		for _, s := range sk.decls {
 			switch {
@@ -323,6 +326,11 @@ func (r *runner) rpcOracle(d *Desc, sks []*skeleton) {
 			}
 		}
 	}
+	return cli, desc
+}
+
+func (r *runner) rpcOracle(d *Desc, sks []*skeleton) {
+	cli, desc := rpcStrings(sks)
 	bad := ""
 	for k, v := range cli {
 		if fmt.Sprint(v) != fmt.Sprint(desc[k]) {
@@ -338,6 +346,74 @@ func (r *runner) rpcOracle(d *Desc, sks []*skeleton) {
 		r.o.Oracle("rpc-strings-agree", d.Describe(), bad)
 	} else {
 		r.o.OracleOK("rpc-strings-agree")
+	}
+}
+
+// rpcNameOracle: the rpc string of a method is its FULLY-QUALIFIED name "/<proto package>.<service>/<method>"
+// (proto names, as every other drpc / grpc / twirp peer spells it), on the client stub and in the
+// Description, and no two methods of the package share one (the mux keys its table by that string and
+// the last registration wins silently).  The expectation is computed from the descriptor, not from the
+// model of the generator.  Services / methods whose Go names coincide are the name-collision finding
+// (their declarations cannot be told apart here) and are left out.
+func (r *runner) rpcNameOracle(d *Desc, files []pFile, sks []*skeleton) {
+	cli, desc := rpcStrings(sks)
+	want := map[string]string{}
+	ambiguous := map[string]bool{}
+	for _, f := range files {
+		for _, s := range f.Services {
+			full := s.Proto
+			if f.Pkg != "" {
+				full = f.Pkg + "." + s.Proto
+			}
+			for _, m := range s.Methods {
+				k := s.Go + "." + m.Go
+				if _, dup := want[k]; dup {
+					ambiguous[k] = true
+				}
+				want[k] = "/" + full + "/" + m.Proto
+			}
+		}
+	}
+	var keys []string
+	for k := range want {
+		keys = append(keys, k)
+	}
+	sort.Strings(keys)
+	bad := ""
+	owner := map[string]string{}
+	n := 0
+	for _, k := range keys {
+		if ambiguous[k] {
+			continue
+		}
+		n++
+		w := want[k]
+		if c := cli[k]; len(c) != 1 || c[0] != w {
+			bad = fmt.Sprintf("%s: client stub uses %v, the method's full name is %s", k, c, w)
+		}
+		if c := desc[k]; len(c) != 1 || c[0] != w {
+			bad = fmt.Sprintf("%s: description says %v, the method's full name is %s", k, c, w)
+		}
+		for _, got := range append(append([]string(nil), cli[k]...), desc[k]...) {
+			if o, ok := owner[got]; ok && o != k {
+				bad = fmt.Sprintf("%s and %s share the rpc name %s", o, k, got)
+			}
+			owner[got] = k
+		}
+	}
+	if bad != "" {
+		r.o.Oracle("rpc-name-fully-qualified", d.Describe(), bad)
+	} else if n > 0 {
+		r.o.OracleOK("rpc-name-fully-qualified")
+		ns := 0
+		for _, f := range files {
+			ns += len(f.Services)
+		}
+		if ns >= 2 {
+			r.o.Stat("rpc-names:checked-multi-service-package")
+		} else {
+			r.o.Stat("rpc-names:checked-single-service-package")
+		}
 	}
 }
 
